@@ -32,7 +32,7 @@
    last ending one or two bytes (the line end) before the returned offset. *)
 From Sipsp Require Import Harness Framing Resume SafeMore SafeMsg Layout FLineConv TrimSpec SigCoherent LowerBound.
 From Sipsp Require Import Tables.
-From Sipsp Require Import CSeqNest NameAddrNest NameAddrTag NameAddrTrim LeafTrim UpperBound NestMsg.
+From Sipsp Require Import CSeqNest NameAddrNest NameAddrTag NameAddrTrim LeafTrim NameAddrPos ContactTrim UpperBound NestMsg.
 
 Theorem C05_body_and_raw_message : forall m h e,
   pf_end (m_body (finished m h e)) = h + (e - h) /\
@@ -209,6 +209,17 @@ Proof. intros buf offs s o s' Hf [H|H]; [exact (uint_value_trimmed buf offs s o 
 Theorem C05_cseq_value_trimmed : forall buf offs s o s', cs_fedb buf offs s -> parse_cseq buf offs s = Done o EOk s' -> trimmed buf (cs_v s').
 Proof. exact cseq_value_trimmed. Qed.
 (* the schedules of these three: a fresh object, then calls that answered "more bytes", on buffers that agree on what was read *)
+(* ... and the header-value span of a Contact / P-Asserted-Identity header (first value's start to last value's end), one call on a fresh list *)
+Theorem C05_contact_span_trimmed : forall buf offs n o C, offs <= nnat (length buf) ->
+  parse_all_contacts buf offs (contacts_init (repeat pfrom0 n)) = Done o EOk C -> trimmed buf (ct_lasthval C).
+Proof. exact contacts_span_trimmed. Qed.
+Theorem C05_pai_span_trimmed : forall buf offs o C, offs <= nnat (length buf) ->
+  parse_all_pais buf offs pais0 = Done o EOk C -> trimmed buf (pa_lasthval C).
+Proof. exact pais_span_trimmed. Qed.
+(* a successfully parsed name-addr value is not empty *)
+Theorem C05_nameaddr_value_not_empty : forall h pre rest i o e v, i = nnat (length pre) -> run (fb_iter h) pre rest i 0 pfrom0 = Done o e v ->
+  e = EOk \/ e = EMoreValues -> pl (fb_v v) <> 0.
+Proof. exact (fun h pre rest i o e v Hi H He => proj2 (fb_fresh_vtb h pre rest i o e v Hi H He)). Qed.
 Theorem C05_leaf_schedules_mean : forall buf' o,
   (forall s', ci_fed buf' o s' <-> (s' = callid0 /\ o <= nnat (length buf')) \/
      exists buf offs s, ci_fed buf offs s /\ parse_callid buf offs s = Done o EMore s' /\ firstn (N.to_nat o) buf' = firstn (N.to_nat o) buf /\ o <= nnat (length buf')) /\
@@ -259,6 +270,8 @@ Print Assumptions C05_nameaddr_value_trimmed.
 Print Assumptions C05_callid_value_trimmed.
 Print Assumptions C05_uint_value_trimmed.
 Print Assumptions C05_cseq_value_trimmed.
+Print Assumptions C05_contact_span_trimmed.
+Print Assumptions C05_pai_span_trimmed.
 Print Assumptions C05_message_subfields_nest.
 Print Assumptions C05_message_subfields_nest_fed.
 Print Assumptions C05_message_every_schedule.
